@@ -6,17 +6,30 @@ import fcntl, glob, hashlib, json, os, re, shutil, subprocess, sys, tempfile, ti
 
 VERIF = os.path.dirname(os.path.abspath(__file__))
 REPO = os.environ.get("VERIF_REPO", "/repo")
-HARNESS = os.path.join(VERIF, "harness")
-BIN = os.path.join(VERIF, ".bin")
+SRC_HARNESS = os.path.join(VERIF, "harness")
 CORPUS = os.path.join(VERIF, "corpus", "yang")
-OUTDIR = os.path.join(VERIF, ".out")
+ALT = os.path.realpath(REPO) != "/repo"
+if ALT:
+    # sensitivity runs against a scratch copy of the repo: private harness copy, bin, out and evidence
+    _h = hashlib.sha1(os.path.realpath(REPO).encode()).hexdigest()[:10]
+    OUTDIR = os.path.join(VERIF, ".out", "alt-" + _h)
+    HARNESS = os.path.join(OUTDIR, "harness")
+    BIN = os.path.join(OUTDIR, "bin")
+    EVIDENCE = os.path.join(OUTDIR, "evidence")
+    REPLAYS = os.path.join(OUTDIR, "replays")
+else:
+    OUTDIR = os.path.join(VERIF, ".out")
+    HARNESS = SRC_HARNESS
+    BIN = os.path.join(VERIF, ".bin")
+    EVIDENCE = os.path.join(VERIF, "evidence")
+    REPLAYS = os.path.join(VERIF, "replays")
 NCPU = os.cpu_count() or 4
 
 ENV = dict(os.environ)
 ENV.update({
     "GOFLAGS": "-mod=mod", "GOPROXY": "off", "GOSUMDB": "off", "GOTOOLCHAIN": "local",
     "GONOSUMDB": "*", "GONOSUMCHECK": "1", "GOFLAGS_EXTRA": "",
-    "VERIF_DIR": VERIF, "VERIF_REPO": REPO,
+    "VERIF_DIR": VERIF, "VERIF_REPO": REPO, "VERIF_HARNESS": HARNESS,
 })
 ENV.pop("GOFLAGS_EXTRA")
 
@@ -166,8 +179,16 @@ def generate_variants(names=None):
         generate_variant(name, spec, v["common"])
 
 
+def sync_alt_harness():
+    os.makedirs(HARNESS, exist_ok=True)
+    run(["rsync", "-a", "--delete", "--exclude", "/gen/", "--exclude", "/go.mod", "--exclude", "/go.sum",
+         "--exclude", "testdata/rapid/", SRC_HARNESS + "/", HARNESS + "/"], check=True)
+
+
 def prepare(need_variants=True):
     with Lock():
+        if ALT:
+            sync_alt_harness()
         write_gomod()
         build_generators()
         if need_variants:
